@@ -17,5 +17,5 @@ INIT TraceInit
 NEXT TraceNext
 CONSTRAINT HighWater
 POSTCONDITION Post
-INVARIANTS C06_AnsweredWhenAvailable C06_AnswerClass C06_HintExact C07_CloseReleases C08_Snapshot C08_NoPanic
+INVARIANTS C06_AnsweredWhenAvailable C06_AnswerClass C06_HintExact C07_CloseReleases C08_Snapshot C08_NoPanic C08_ViewsConsistent
 CHECK_DEADLOCK FALSE
